@@ -18,6 +18,10 @@ CONSTANTS
   ReadNotCounted = FALSE
   SqueezedFits = TRUE
   ReopenClampsMap = FALSE
+  LiveSized = FALSE
+  Page = 7
+  PageBySkipCur = FALSE
+  PageFreshSnap = FALSE
   BatchMax = 1
 POSTCONDITION Accepted
 CHECK_DEADLOCK FALSE
